@@ -382,3 +382,158 @@ func init() {
 		},
 	})
 }
+
+func init() {
+	register(&Rule{
+		Name: "response-blocks-in-order", Props: []string{"C02", "C20"}, Engine: "AST", Floor: 5,
+		Doc: "the client knows which header block of a response it is reading: a request records that its header block (final status) has arrived, readStreamOwned tells the connection's block state so when a HEADERS frame opens the next block and takes the verdict back, the pool reset clears the record, a block is final exactly when it ends with a status of 200 or more outside trailers, and a pseudo-header in trailers is refused before anything is stored",
+		Run: func(p *Prog, r *Out) {
+			r.fn("(*Conn).readStreamOwned", "(*Conn).readHeader", "acquireCtx")
+			if fd := p.decl("(*Conn).readStreamOwned"); fd != nil {
+				t := []string{}
+				for _, s := range fd.Body.List {
+					t = append(t, squash(p.fullText(s)))
+				}
+				in, call, out := -1, -1, -1
+				for i, x := range t {
+					switch x {
+					case "iffr.Type()==FrameHeaders{c.block.trailers=r.headersDone}":
+						in = i
+					case "err:=c.readStream(fr,r.Response)":
+						call = i
+					case "ifc.block.final{c.block.final=falser.headersDone=true}":
+						out = i
+					}
+				}
+				r.check(in >= 0 && in < call && call < out, "the request and the block state exchange what they know around the read", p.pos(fd.Pos()), "HEADERS: block.trailers = r.headersDone; read; if block.final { r.headersDone = true }", "readStreamOwned no longer tells the block state whether the request already has its header block before the frame is read, and records afterwards that it has")
+			} else {
+				r.undecided("readStreamOwned", "?", "no longer resolves")
+			}
+			if fd := p.decl("acquireCtx"); fd != nil {
+				r.check(hasStmt(p, fd.Body.List, "ctx.headersDone=false"), "a recycled Ctx has no header block yet", p.pos(fd.Pos()), "ctx.headersDone = false", "a Ctx from the pool keeps the previous request's record: the next response's header block is taken for trailers and refused for its :status")
+			}
+			if fd := p.decl("(*Conn).readHeader"); fd != nil {
+				// trailers: refused before the status is looked at
+				trAt, stAt := token.NoPos, token.NoPos
+				ast.Inspect(fd.Body, func(n ast.Node) bool {
+					switch x := n.(type) {
+					case *ast.IfStmt:
+						if squash(p.text(x.Cond)) == "c.block.trailers" && len(x.Body.List) == 1 && squash(p.text(x.Body.List[0])) == "returnc.skipFields(fr,b,errPseudoInTrailers)" {
+							trAt = x.Pos()
+						}
+					case *ast.CallExpr:
+						if strings.HasSuffix(p.calleeOf(x), ".SetStatusCode") {
+							stAt = x.Pos()
+						}
+					}
+					return true
+				})
+				r.check(trAt.IsValid() && stAt.IsValid() && trAt < stAt, "a pseudo-header in trailers is refused", p.pos(fd.Pos()), "if block.trailers { reject } before the status is stored", "a :status in the trailers is no longer refused before it is stored: it replaces the status the response came with (RFC 7540 s8.1.2.1: trailers carry no pseudo-header fields)")
+				// final: END_HEADERS && !trailers { !statusSeen -> reject; status >= 200 -> final }
+				okFin := false
+				for _, s := range fd.Body.List {
+					ifs, ok := s.(*ast.IfStmt)
+					if !ok || !p.isConjunctionOf(ifs.Cond, "fr.Flags().Has(FlagEndHeaders)", "!c.block.trailers") || len(ifs.Body.List) != 2 {
+						continue
+					}
+					a, okA := ifs.Body.List[0].(*ast.IfStmt)
+					b, okB := ifs.Body.List[1].(*ast.IfStmt)
+					if okA && okB && squash(p.text(a.Cond)) == "!c.block.statusSeen" && isRejectingBody(p, a.Body) &&
+						squash(p.text(b.Cond)) == "res.StatusCode()>=200" && len(b.Body.List) == 1 && squash(p.text(b.Body.List[0])) == "c.block.final=true" {
+						okFin = true
+					}
+				}
+				r.check(okFin, "a block is the response's header block when it ends with a final status", p.pos(fd.Pos()), "END_HEADERS && !trailers: no status -> reject; status >= 200 -> final", "readHeader no longer decides at the end of a non-trailer block that it must have had a :status and that a status of 200 or more makes it the response's header block (1xx blocks are interim)")
+			}
+			if fd := p.decl("(*headerBlock).open"); fd != nil {
+				okO := false
+				if len(fd.Body.List) > 0 {
+					if ifs, ok := fd.Body.List[0].(*ast.IfStmt); ok {
+						okO = hasStmt(p, ifs.Body.List, "hb.statusSeen=false") && hasStmt(p, ifs.Body.List, "hb.final=false")
+					}
+				}
+				r.check(okO, "a new block has had no :status", p.pos(fd.Pos()), "statusSeen = false; final = false on a frame that opens a block", "open no longer clears the :status marks when a HEADERS frame starts a block: the next block is refused for a duplicate, or taken for final without a status")
+			}
+		},
+	})
+}
+
+func init() {
+	register(&Rule{
+		Name: "teardown-lets-go", Props: []string{"C17", "C13"}, Engine: "AST", Floor: 4,
+		Doc: "what a connection holds is let go of when it ends: the ping callback re-arms its timer only while the writer is neither stopped nor gone; the stream loop, after it has closed handlerStop, closes the body streams of the responses still in its table and of those reported on handlerDone, never of a stream whose handler is still running; a handler that finds the loop gone closes the body stream of its own response",
+		Run: func(p *Prog, r *Out) {
+			r.fn("(*serverConn).sendPingAndSchedule", "(*serverConn).handleStreams", "(*serverConn).dispatchHandler", "(*serverConn).dropResponse")
+			if fd := p.decl("(*serverConn).sendPingAndSchedule"); fd != nil {
+				l := fd.Body.List
+				okP := false
+				if len(l) == 3 && squash(p.text(l[0])) == "sc.writePing()" && squash(p.text(l[2])) == "sc.pingTimer.Reset(sc.pingInterval)" {
+					if sel, ok := l[1].(*ast.SelectStmt); ok && len(sel.Body.List) == 3 {
+						stop, gone, def := false, false, false
+						for _, c := range sel.Body.List {
+							cc := c.(*ast.CommClause)
+							ret := len(cc.Body) == 1 && squash(p.text(cc.Body[0])) == "return"
+							switch {
+							case cc.Comm == nil:
+								def = len(cc.Body) == 0
+							case squash(p.text(cc.Comm)) == "<-sc.writeStop":
+								stop = ret
+							case squash(p.text(cc.Comm)) == "<-sc.writeGone":
+								gone = ret
+							}
+						}
+						okP = stop && gone && def
+					}
+				}
+				r.check(okP, "the ping timer is re-armed only on a live connection", p.pos(fd.Pos()), "writePing; select { <-writeStop: return; <-writeGone: return; default: }; Reset", "sendPingAndSchedule re-arms its timer without looking whether the writer has been stopped or has gone: a ping released by the teardown brings the timer back, and it fires for good on a dead connection")
+			} else {
+				r.undecided("sendPingAndSchedule", "?", "no longer resolves")
+			}
+			if fd := p.decl("(*serverConn).handleStreams"); fd != nil {
+				dropAt, stopAt := token.NoPos, token.NoPos
+				okBody := false
+				for _, s := range fd.Body.List {
+					d, ok := s.(*ast.DeferStmt)
+					if !ok {
+						continue
+					}
+					if squash(p.text(d.Call)) == "close(sc.handlerStop)" {
+						stopAt = d.Pos()
+					}
+					if fl, ok := d.Call.Fun.(*ast.FuncLit); ok {
+						t := squash(p.fullText(fl.Body))
+						if strings.Contains(t, "for_,strm:=rangestrms{sc.dropResponse(strm)}") {
+							dropAt = d.Pos()
+							okBody = strings.Contains(t, "casestrm:=<-sc.handlerDone:strm.handlerRunning=falsesc.dropResponse(strm)") && strings.Contains(t, "default:return")
+						}
+					}
+				}
+				// deferred before handlerStop's close, so it runs after it
+				r.check(dropAt.IsValid() && stopAt.IsValid() && dropAt < stopAt && okBody, "the stream loop drops what it still holds, after it has told the handlers", p.pos(fd.Pos()), "defer { range strms: dropResponse; drain handlerDone: dropResponse } registered before defer close(handlerStop)", "the stream loop no longer closes, on its way out and after handlerStop is closed, the body streams of the responses in its table and of those already reported: a file stays open and a stream writer's goroutine stays blocked in its pipe for good")
+			}
+			if fd := p.decl("(*serverConn).dropResponse"); fd != nil {
+				l := stmtTexts(p, fd.Body.List)
+				okD := len(l) == 3 && l[0] == "ifstrm.handlerRunning||strm.ctx==nil{return}" && l[1] == "sc.closeBodyStream(strm)" && l[2] == "_=strm.ctx.Response.CloseBodyStream()"
+				r.check(okD, "a response is dropped only when no handler owns it", p.pos(fd.Pos()), "if handlerRunning || ctx == nil { return }; closeBodyStream; Response.CloseBodyStream", "dropResponse no longer leaves alone a stream whose handler is still running (the RequestCtx is the handler's), or no longer closes both the stream's reader and the response's body stream")
+			} else {
+				r.bad("a response is dropped only when no handler owns it", "?", "(*serverConn).dropResponse no longer resolves")
+			}
+			if fd := p.decl("(*serverConn).dispatchHandler"); fd != nil {
+				okH := false
+				ast.Inspect(fd.Body, func(n ast.Node) bool {
+					cc, ok := n.(*ast.CommClause)
+					if !ok || cc.Comm == nil || squash(p.text(cc.Comm)) != "<-sc.handlerStop" {
+						return true
+					}
+					for _, s := range cc.Body {
+						if squash(p.text(s)) == "_=ctx.Response.CloseBodyStream()" {
+							okH = true
+						}
+					}
+					return true
+				})
+				r.check(okH, "a handler that finds the loop gone closes its response's body", p.pos(fd.Pos()), "case <-sc.handlerStop: ctx.Response.CloseBodyStream()", "a handler that finishes after the stream loop has gone drops its response with the body stream still open")
+			}
+		},
+	})
+}
